@@ -193,7 +193,8 @@ func (p *Provider) ruleSetsChanged(evt fsnotify.Event) error {
 	switch {
 	case evt.Has(fsnotify.Create) || evt.Has(fsnotify.Write) || evt.Has(fsnotify.Chmod):
 		err = p.ruleSetCreatedOrUpdated(evt.Name)
-	case evt.Has(fsnotify.Remove):
+	case evt.Has(fsnotify.Remove) || evt.Has(fsnotify.Rename):
+		// a rename event is reported for the old name of a moved file, which is gone then
 		err = p.ruleSetDeleted(evt.Name)
 	}
 
@@ -271,7 +272,12 @@ func (p *Provider) loadRuleSet(fileName string) (*config2.RuleSet, error) {
 			CausedBy(err)
 	}
 
-	stat, _ := os.Stat(fileName)
+	stat, err := os.Stat(fileName)
+	if err != nil {
+		// the file may have been removed or renamed in the meantime
+		return nil, errorchain.NewWithMessagef(heimdall.ErrInternal,
+			"failed to get information about %s", fileName).CausedBy(err)
+	}
 
 	ruleSet.Hash = md.Sum(nil)
 	ruleSet.Source = "file_system:" + fileName
